@@ -69,6 +69,9 @@ func (d *typeDictionary) merge(o *typeDictionary) {
 
 // find returns the Typedef name define in node n, or nil.
 func (d *typeDictionary) find(n Node, name string) *Typedef {
+	if verifEnabled {
+		verifYield("typedict.find")
+	}
 	defer d.mu.Unlock()
 	d.mu.Lock()
 	if d.dict[n] == nil {
